@@ -102,7 +102,7 @@ def run_history_shard(mod, shard):
         finally:
             h.close()
 
-    hyp.run(st.data(), body, shard['examples'], shard['seed'])
+    hyp.run(st.data(), body, shard['examples'], shard['seed'], stats=counters)
     return {'evaluations': evaluations[0], 'nontrivial': nontriv, 'samples': samples, 'counters': counters,
             'failures': fails}
 
